@@ -3,6 +3,7 @@ package main
 // C16 — util TLV8 container: correspondence with HcModel/Tlv8.lean + direct oracles.
 
 import (
+	"sync"
 	"time"
 	"bytes"
 	"fmt"
@@ -96,6 +97,7 @@ func tlvErrClass(err error) string {
 }
 
 func checkC16(c *Ctx) {
+	c16ConcurrentParse(c)
 	platformProbe(c, "C16", "tlvprobe") // every tag / integers at the ends of every width, on 32-bit and non-amd64 builds too
 	c.SetRule("streams: sets (operation sequences over tags/lengths incl. 0, 254..257, k*255, up to 1024+; non-trivial = " +
 		"at least one value > 255 bytes or a repeated tag), parse (arbitrary / truncated / valid byte strings; non-trivial = " +
@@ -137,6 +139,16 @@ func checkC16(c *Ctx) {
 			big[0].Val, big[1].Val, big[2].Val = randBytes(r, 100), randBytes(r, 154), randBytes(r, 254*255+200)
 		}
 		cases = append(cases, setCase{c.CaseID("sets-big", bi), big})
+	}
+	// text whose length in bytes and in characters differ (SetString): 86–255 characters that take 256–1020 bytes
+	for ui, ru := range []string{"é", "灯", "𝄞", "aé", "é灯𝄞"} {
+		for _, nr := range []int{85, 86, 127, 128, 129, 170, 171, 200, 254, 255, 256} {
+			n := nr / len([]rune(ru))
+			if n == 0 {
+				continue
+			}
+			cases = append(cases, setCase{fmt.Sprintf("sets-utf8#%d.%d", ui, nr), []tlvOp{{byte(1 + ui), []byte(strings.Repeat(ru, n))}, {byte(9), []byte("after")}}})
+		}
 	}
 	for t := 0; t < 256; t++ { // every tag
 		r := c.CaseRng("sets-tag", t)
@@ -193,6 +205,8 @@ func checkC16(c *Ctx) {
 					for j := range scratch {
 						scratch[j] ^= 0xA5
 					}
+				} else if i%4 == 2 || strings.HasPrefix(cs.id, "sets-utf8") {
+					cont.SetString(o.Tag, string(o.Val)) // a Go string holds any bytes: the same value through the other setter
 				} else {
 					cont.SetBytes(o.Tag, o.Val)
 				}
@@ -528,4 +542,57 @@ func genTlvInput(r *rand.Rand) []byte {
 		b = append(b, randBytes(r, 1+r.Intn(3))...)
 	}
 	return b
+}
+
+// c16ConcurrentParse: the accessory parses the pairing requests of different connections at the same time, each on its own
+// goroutine with its own reader. A container is what ITS input says — whatever is parsed next to it.
+func c16ConcurrentParse(c *Ctx) {
+	id := "concurrent-parse#0"
+	if c.Skip(id) {
+		return
+	}
+	r := c.CaseRng("concurrent-parse", 0)
+	var inputs [][]byte
+	for k := 0; k < 24; k++ {
+		var ops []tlvOp
+		for j := 0; j < 1+r.Intn(6); j++ {
+			ops = append(ops, tlvOp{byte(1 + (k*7+j)%250), randBytes(r, []int{0, 1, 3, 40, 255, 300}[r.Intn(6)])})
+		}
+		inputs = append(inputs, refTlvEncode(ops))
+	}
+	var mu sync.Mutex
+	bad := ""
+	var wg sync.WaitGroup
+	deadline := time.Now().Add(time.Duration(c.Pick(400, 3000)) * time.Millisecond)
+	for g := 0; g < 8; g++ {
+		wg.Add(1)
+		go func(g int) {
+			defer wg.Done()
+			for k := 0; time.Now().Before(deadline); k++ {
+				in := inputs[(g*5+k)%len(inputs)]
+				var out []byte
+				var err error
+				msg, pan := safely(func() {
+					var cont util.Container
+					if cont, err = util.NewTLV8ContainerFromReader(iotest.OneByteReader(bytes.NewReader(in))); err == nil {
+						out = cont.BytesBuffer().Bytes()
+					}
+				})
+				if pan || err != nil || !bytes.Equal(out, in) {
+					mu.Lock()
+					if bad == "" {
+						bad = fmt.Sprintf("input %s parsed (next to 7 other parses) into %s err=%v %s", trunc(hx(in), 80), trunc(hx(out), 80), err, msg)
+					}
+					mu.Unlock()
+					return
+				}
+			}
+		}(g)
+	}
+	wg.Wait()
+	if bad != "" {
+		c.Violate("tlv8 parser yields data that was not in the input (several inputs are parsed at the same time, each by its own goroutine)", id,
+			map[string]interface{}{"goroutines": 8, "inputs": len(inputs)}, "the container of each input serialises to that input", bad)
+	}
+	c.Count(id, true, "stream:concurrent-parse")
 }
